@@ -6,6 +6,9 @@ use std::time::Instant;
 
 pub const VERIF_ROOT: &str = "/verif";
 
+/// panics that escaped a harness work item (see `par_for`)
+pub static ESCAPED: std::sync::Mutex<Vec<String>> = std::sync::Mutex::new(Vec::new());
+
 #[derive(Clone, Copy, Debug, PartialEq, Eq)]
 pub enum Tier {
     Quick,
@@ -224,6 +227,16 @@ pub fn load_known_findings() -> Vec<KnownFinding> {
 /// Finish a check: print verdict lines, write replay files and the evidence file. Returns the exit code.
 pub fn finish(ctx: &Ctx, mut out: Outcome) -> i32 {
     let known = load_known_findings();
+    {
+        let esc = ESCAPED.lock().unwrap();
+        let mut seen = std::collections::BTreeSet::new();
+        for e in esc.iter() {
+            let sig: String = e.splitn(2, ": ").nth(1).unwrap_or(e).chars().take(80).collect();
+            if seen.insert(sig.clone()) && seen.len() <= 5 {
+                out.violations.push(Violation { rule: format!("{}.panic", ctx.prop), signature: format!("escaped:{}", sig), what: format!("a panic escaped the harness ({} such work items): {}", esc.len(), e), replay: json!({"harness": "escaped", "message": e}) });
+            }
+        }
+    }
     let mut new_violations = 0;
     let mut known_hits: BTreeMap<String, String> = BTreeMap::new();
     let _ = std::fs::create_dir_all(format!("{}/replays", VERIF_ROOT));
@@ -308,7 +321,12 @@ pub fn par_for<F: Fn(usize) + Sync>(n: usize, f: F) {
                 if i >= n {
                     break;
                 }
-                f(i);
+                // a panic that escapes a work item (an unguarded call into an h2 object whose lock an earlier, recorded panic
+                // has poisoned; an oracle bug) must not take the whole check down: it is collected and reported by `finish`
+                if let Err(p) = std::panic::catch_unwind(std::panic::AssertUnwindSafe(|| f(i))) {
+                    let msg = if let Some(s) = p.downcast_ref::<&str>() { s.to_string() } else if let Some(s) = p.downcast_ref::<String>() { s.clone() } else { "panic".into() };
+                    ESCAPED.lock().unwrap().push(format!("work item {}: {}", i, msg.lines().next().unwrap_or("")));
+                }
             });
         }
     });
